@@ -33,6 +33,7 @@ def cases(res):
     add(10, {"screen_content_mode": 1}, "screen", 128, 128)
     add(10, {"enc_mode": 6}, "motion", 128, 128)
     add(8, {"enc_mode": 4}, "motion", 64, 64)
+    add(8, {"enc_mode": 4, "enable_tpl_la": 1}, "motion", 64, 64)
     add(10, {"qp": 63}, "noise")
     add(10, {"qp": 1, "enable_qp_scaling_flag": 0}, "edges")
     add(17, {"enable_overlays": 1, "tf_level": 1, "hierarchical_levels": 3}, "motion", 128, 64)
@@ -62,7 +63,8 @@ def known(r, kind):
     s = r["case"]["sets"]
     return {"kind": kind, "hierarchical_levels": s.get("hierarchical_levels", 4), "logical_processors": s.get("logical_processors"),
             "rate_control_mode": s.get("rate_control_mode", 0), "superres_mode": s.get("superres_mode", 0),
-            "is_16bit_pipeline": s.get("is_16bit_pipeline", 0), "bits": r["case"].get("bits", 8)}
+            "is_16bit_pipeline": s.get("is_16bit_pipeline", 0), "bits": r["case"].get("bits", 8),
+            "enc_mode": s.get("enc_mode", 8), "enable_tpl_la": int(s.get("enable_tpl_la", 1))}
 
 
 def run(res):
@@ -73,7 +75,7 @@ def run(res):
     cs = cases(res)
     groups = [(obsfam.key_of(c) + "#%d" % i, [c]) for i, c in enumerate(cs)]
     bg = obsfam.run_groups(res, groups, want_dec=["--aom", "--svt"], timeout=200, packets=False, known_key_fn=known,
-                           what="C01 recon vs independent decode")
+                           what="C01 recon vs independent decode", dec_errors=False)     # decoder errors are judged below, with their own keys
     unavailable = 0
     for g, runs in bg.items():
         for r in runs:
